@@ -53,9 +53,8 @@ def bs_case(kind, call, greek, shape=(1,)):
         extra = ()
         if kind in ("ambinary", "lookback"):
             mx = api.tensor(c, "m", shape)
-            if c.mode == "sym":
-                for a, b in zip(st.terms_of(mx), st.terms_of(s)):
-                    c.assume(tm.ge(a, b))  # (the tie max == strike is included: the derivative is w.r.t. the spot at a fixed running maximum)
+            for a, b in zip(api.elems(mx), api.elems(s)):
+                c.assume(api.ge(a, b))  # (the tie max == strike is included: the derivative is w.r.t. the spot at a fixed running maximum)
             price = lambda s_, t_, v_: m.price(s_, mx, t_, v_)  # noqa: E731
             call_greek = lambda name: getattr(m, name)(s, mx, t, v)  # noqa: E731
         else:
@@ -131,8 +130,7 @@ def functional_case(fname):
                                                                        elem(-dfun(c, lambda y: price(s, y, v), t), 0), tol=1e-5))
         elif fname == "ambinary":
             mx = api.tensor(c, "m", (1,))
-            if c.mode == "sym":
-                c.assume(tm.ge(st.terms_of(mx)[0], st.terms_of(s)[0]))
+            c.assume(api.ge(elem(mx, 0), elem(s, 0)))
             price = lambda s_, t_, v_: F.bs_american_binary_price(s_, mx, t_, v_)  # noqa: E731
             d = dfun(c, lambda y: price(y, t, v), s) / spot(s)
             c.check("bs_american_binary_delta", api.eq(elem(F.bs_american_binary_delta(s, mx, t, v, K), 0), elem(d, 0), tol=1e-5))
